@@ -36,6 +36,7 @@ def _norm_msg(e):
     m = getattr(e, "msg", None) or str(e)
     if "unicodeescape" in m or "unicode error" in m:
         return "incomplete-python-unicode-escape-in-string-literal"
+    m = re.sub(r"'[^']{0,6}'$", "'…'", m) if "invalid literal" in m else m
     m = re.sub(r"\d+", "N", m)
     m = re.sub(r"\(.*\)", "", m)
     return m.strip().replace(" ", "_")[:70]
